@@ -11,7 +11,7 @@
 (* Type prefixes: D Date, T Time, TS Timestamp, YM IntervalYM,             *)
 (* DT IntervalDT, OD OracleDate.                                           *)
 (***************************************************************************)
-EXTENDS Units, Val, Scale, TLC
+EXTENDS Units, Val, Scale, Render, TLC
 
 (* ------------------------- result shapes ------------------------------- *)
 ResDate(r, n)  == IF InDateRange(n) THEN IsOk(r, n) ELSE IsErr(r)
@@ -127,6 +127,10 @@ AgreeLift(rd, rt, dateValued) ==
 AgreeFloor(rt, ro) ==
   /\ rt[1] = ro[1]
   /\ rt[1] = 0 => ro[2] = <<rt[2][1], rt[2][2], 0>>
+
+TypeOfFormatOp(op) ==
+  CASE op = "D.format" -> "D" [] op = "T.format" -> "T" [] op = "TS.format" -> "TS"
+    [] op = "YM.format" -> "YM" [] op = "DT.format" -> "DT" [] op = "OD.format" -> "OD"
 
 (* ------------------------------ dispatcher ------------------------------ *)
 YmVerdictOK(y, m) == m <= 11 /\ (y < 178000000 \/ (y = 178000000 /\ m = 0))
@@ -291,6 +295,13 @@ OpOK(op, a, r) ==
                               IF InDateRange(n) THEN IsOk(r, <<n, SodOf(a[1][4], a[1][5], a[1][6]), 0>>) ELSE IsErr(r)
   [] op = "OD.from_time_at" -> LET n == ClockDayRes(a[1]) IN
                               IF InDateRange(n) THEN IsOk(r, <<n, a[2][1], 0>>) ELSE IsErr(r)
+  (* ---- pictures and formatting (C19, C04) ---- *)
+  [] op = "F.try_new" -> IF Unjudged(a[1]) THEN r[1] \in {0, 1}
+                         ELSE IF PicAccepted(a[1]) THEN r[1] = 0 ELSE IsErr(r)
+  [] op \in {"D.format", "T.format", "TS.format", "YM.format", "DT.format", "OD.format"} ->
+        IF Unjudged(a[2]) THEN r[1] \in {0, 1}
+        ELSE LET e == FormatRes(a[2], TypeOfFormatOp(op), a[1]) IN
+             IF e[1] = 0 THEN IsOk(r, e[2]) ELSE IsErr(r)
   (* ---- vector form: one first argument, many second arguments ---- *)
   [] op = "VEC" -> r[1] = 0 /\ Len(r[2]) = Len(a[3]) /\
                    \A j \in 1..Len(a[3]) : OpOK(a[1], <<a[2], a[3][j]>>, r[2][j])
